@@ -141,6 +141,11 @@ def make_doc(rng, kind='text', i=0):
         body += g.block(r=FORCED[i % len(FORCED)]) + g.block(r=0.5, level=i % 10 + 1)
         if i % 5 == 3:                       # a dozen notes in a row: they are numbered, and numbers sort differently as strings
             body += '<text:p>%s</text:p>' % ''.join(g.inline_note() for _ in range(12))
+        if i % 3 == 2:                       # bookmarks and references to them (the name of the bookmark referred to is optional)
+            g.prev_word = None
+            body += ('<text:p><text:bookmark text:name="bm &amp; 1"/>%s<text:bookmark-start text:name="bm2"/>%s<text:bookmark-end text:name="bm2"/>' % (g.text(1), g.text(1))
+                     + '<text:bookmark-ref text:ref-name="bm &amp; 1" text:reference-format="text">%s</text:bookmark-ref>' % g.text(1)
+                     + '<text:bookmark-ref text:reference-format="page">%s</text:bookmark-ref></text:p>' % g.text(1))
         body += ''.join(g.block() for _ in range(rng.randint(0, 2)))
     else: body = ''
     meta = ('<meta:generator>Other/1.0</meta:generator><dc:title>%s</dc:title><dc:language>%s</dc:language><dc:creator>%s</dc:creator><meta:keyword>%s</meta:keyword>'
@@ -153,12 +158,21 @@ def make_doc(rng, kind='text', i=0):
              '<style:style style:name="P&amp;2" style:family="paragraph"/><style:style style:name="T1" style:family="text"><style:text-properties fo:font-weight="bold" fo:font-family="%s"/></style:style>'
              '<style:style style:name="T2" style:family="text"><style:text-properties style:text-position="%s"/></style:style><style:style style:name="T&lt;3" style:family="text"/>'
              '<text:list-style style:name="L1"><text:list-level-style-bullet text:level="1" text:bullet-char="•"/></text:list-style>'
-             '<text:list-style style:name="WW8Num1.1"><text:list-level-style-number text:level="1" style:num-format="1"/><text:list-level-style-number text:level="2" style:num-format="a"/></text:list-style>') % (P.xml_attr(fam[0]), P.xml_attr(fam[1]), rng.choice(['super', 'sub', '33% 58%', '33.3% 58%', '-33%', 'super 58%', '0% 100%']))
+             '<text:list-style style:name="WW8Num1.1"><text:list-level-style-number text:level="1" style:num-format="1"/><text:list-level-style-number text:level="2" style:num-format="a"/></text:list-style>'
+             # data styles of every kind, with the text properties a "negative numbers in red" format has
+             + ''.join('<number:%s style:name="N%d"><style:text-properties fo:color="#ff0000"/><number:text>-</number:text></number:%s>' % (n, k_, n)
+                       for k_, n in enumerate(['number-style', 'percentage-style', 'time-style', 'currency-style', 'date-style', 'boolean-style', 'text-style']))) % (P.xml_attr(fam[0]), P.xml_attr(fam[1]), rng.choice(['super', 'sub', '33% 58%', '33.3% 58%', '-33%', 'super 58%', '0% 100%']))
     if kind == 'text' and i % 4 == 1:
         body = re.sub(r'(</text:p>|</text:h>|</text:list>|</table:table>)(?=<text:p|<text:h|<text:list|<table:table|$)', r'\1\n  ', body)      # as a pretty-printer writes it
     if kind == 'text':
+        # font declarations as writers make them - svg:font-family is optional - and an outline style with the text properties of its numbers
+        fonts = ('<office:font-face-decls><style:font-face style:name="F1" svg:font-family="%s" style:font-family-generic="swiss"/><style:font-face style:name="F2" style:font-pitch="variable"/>'
+                 '<style:font-face style:name="F3" svg:font-family="Courier" style:font-family-generic="modern" style:font-pitch="fixed"/></office:font-face-decls>') % P.xml_attr(fam[0])
+        outline = ('<text:outline-style style:name="Outline"><text:outline-level-style text:level="1" style:num-format="1"><style:list-level-properties text:space-before="1cm"/>'
+                   '<style:text-properties fo:font-weight="bold"/></text:outline-level-style></text:outline-style>')
         data = P.simple_package(body, autostyles=autos, meta=meta, extra_members=[('Pictures/p1.png', b'\x89PNG', 'image/png')],
-                                styles='<style:default-style style:family="paragraph"/><style:style style:name="Standard" style:family="paragraph"/>'
+                                fontdecls=fonts if i % 2 == 0 else '', styles_fonts=fonts if i % 3 == 0 else '',
+                                styles=outline + '<style:default-style style:family="paragraph"/><style:style style:name="Standard" style:family="paragraph"/>'
                                        + ''.join('<style:style style:name="%s" style:family="paragraph" style:parent-style-name="Standard"/>' % n for n in HEADING_STYLES))
     elif kind == 'spreadsheet':
         cells = ''.join('<table:table-row><table:table-cell office:value-type="string">%s</table:table-cell></table:table-row>' % g.para() for _ in range(rng.randint(1, 4)))
